@@ -21,6 +21,8 @@ import (
 	"sort"
 	"strconv"
 	"strings"
+	"sync"
+	"sync/atomic"
 	"time"
 
 	"github.com/btcsuite/btcd/btcec/v2"
@@ -105,6 +107,26 @@ type bindStats struct {
 	trScriptTypes      map[uint32]int
 	trScriptAnnex      int
 	trScriptCodeSep    int
+}
+
+func (a *bindStats) merge(b *bindStats) {
+	a.v0Bound += b.v0Bound
+	a.v0Unbound += b.v0Unbound
+	a.trKeyBound += b.trKeyBound
+	a.trKeyAnnex += b.trKeyAnnex
+	a.trScriptBound += b.trScriptBound
+	a.trScriptUnbound += b.trScriptUnbound
+	a.trScriptAnnex += b.trScriptAnnex
+	a.trScriptCodeSep += b.trScriptCodeSep
+	for k, v := range b.v0Types {
+		a.v0Types[k] += v
+	}
+	for k, v := range b.trKeyTypes {
+		a.trKeyTypes[k] += v
+	}
+	for k, v := range b.trScriptTypes {
+		a.trScriptTypes[k] += v
+	}
 }
 
 func newBindStats() *bindStats {
@@ -504,8 +526,10 @@ func bindTaprootRef(r *ev.Run, st *bindStats) int {
 		}
 	}
 	sort.Strings(names)
-	n := 0
-	for _, name := range names {
+	var n int64
+	var mu sync.Mutex
+	ev.Par(len(names), workers, func(ni int) {
+		name := names[ni]
 		raw, err := os.ReadFile(filepath.Join(dir, name))
 		if err != nil {
 			r.Broken("taproot-ref %s: %v", name, err)
@@ -516,11 +540,11 @@ func bindTaprootRef(r *ev.Run, st *bindStats) int {
 			r.Broken("taproot-ref %s: %v", name, err)
 		}
 		if v.Success == nil {
-			continue
+			return
 		}
 		tx, err := parseTx(v.Tx)
 		if err != nil || len(v.Prevouts) != len(tx.TxIn) || v.Index >= len(tx.TxIn) {
-			continue
+			return
 		}
 		prev := make([]refsighash.PrevOut, len(tx.TxIn))
 		good := true
@@ -530,15 +554,19 @@ func bindTaprootRef(r *ev.Run, st *bindStats) int {
 				good = false
 				break
 			}
-			var o wire.TxOut
-			if err := wire.ReadTxOut(bytes.NewReader(b), 0, 0, &o); err != nil {
+			// serialized CTxOut: value (8, LE) || compact size || script
+			if len(b) < 9 || b[8] >= 0xfd || len(b) != 9+int(b[8]) {
 				good = false
 				break
 			}
-			prev[i] = refsighash.PrevOut{Value: o.Value, PkScript: o.PkScript}
+			var val uint64
+			for k := 0; k < 8; k++ {
+				val |= uint64(b[k]) << (8 * uint(k))
+			}
+			prev[i] = refsighash.PrevOut{Value: int64(val), PkScript: b[9:]}
 		}
 		if !good {
-			continue
+			return
 		}
 		ss, _ := hex.DecodeString(v.Success.ScriptSig)
 		tx.TxIn[v.Index].SignatureScript = ss
@@ -555,13 +583,17 @@ func bindTaprootRef(r *ev.Run, st *bindStats) int {
 			}
 		}
 		tv := time.Now()
-		bindInput(r, st, name+" ("+v.Comment+")", tx, v.Index, prev, active)
-		if d := time.Since(tv); d > time.Second && os.Getenv("C07_DEBUG") != "" {
+		local := newBindStats()
+		bindInput(r, local, name+" ("+v.Comment+")", tx, v.Index, prev, active)
+		mu.Lock()
+		st.merge(local)
+		mu.Unlock()
+		if d := time.Since(tv); d > 50*time.Millisecond && os.Getenv("C07_DEBUG") != "" {
 			fmt.Fprintf(os.Stderr, "slow vector %s %s %v nin=%d wit=%d\n", name, v.Comment, d, len(tx.TxIn), len(wit))
 		}
-		n++
-	}
-	return n
+		atomic.AddInt64(&n, 1)
+	})
+	return int(n)
 }
 
 func max(a, b int) int {
